@@ -1044,6 +1044,13 @@ def pref_sentence(rng, sp, level):
     else:
         target, tt = y, ctx.var(y)
     t = f'It is preferred{"," if comma else ""} {ptxt}{"," if comma else ""} that {whs}, {target} {phrase}.'
+    if rng.random() < 0.35 and v.subj.tuples:
+        # one preference per listed value (`where X is one of a, b`): every copy keeps quantity, direction and priority
+        us = [u[0] for u in rng.sample(v.subj.tuples, min(len(v.subj.tuples), 2))]
+        t = t[:-1] + f', where {x} is one of {", ".join(str(u) for u in us)}.'
+        asts = [{'k': 'varOpt', 'phrase': phrase, 'prio': past, 'v': tt, 'params': params,
+                 'cs': cs + [{'k': 'cmp', 'op': 'eq', 'l': ctx.var(x), 'r': val(u)}]} for u in us]
+        return Sentence(t, asts, 'pref-var-enum')
     return Sentence(t, {'k': 'varOpt', 'phrase': phrase, 'prio': past, 'v': tt, 'cs': cs, 'params': params}, 'pref-var')
 
 
